@@ -344,6 +344,9 @@ class Name(str):
     def __repr__(self):
         return f"Name({self.ident})"
 
+    def __bool__(self):
+        return True      # a name is a non-empty text (precondition on names)
+
     def _unsup(self, *a, **k):
         raise Unsupported("unmodelled string operation on an opaque name")
 
@@ -384,7 +387,14 @@ class SymSeq(list):
     def _unsup(self, *a, **k):
         raise Unsupported("native access to a symbolic sequence")
 
-    __iter__ = __len__ = __getitem__ = __contains__ = __add__ = __radd__ = _unsup
+    __iter__ = __len__ = __getitem__ = __add__ = __radd__ = _unsup
+
+    def __contains__(self, x):
+        # membership of a concrete string in a sequence of opaque names: decided by the generic element
+        if isinstance(self.elem, Name) and isinstance(x, str) and not isinstance(x, Name):
+            return self.elem == x
+        raise Unsupported("membership test on a symbolic sequence")
+
     append = extend = insert = pop = index = count = sort = reverse = _unsup
 
     def __eq__(self, o):
